@@ -128,7 +128,7 @@ def check_case(ctx, c):
     except Exception as e:
         got = (e, None)
     ctx.ran()
-    path = PathTap.accepted()
+    path = PathTap.accepted(("raw-format", "custom-formats") if fmt else ("absolute-time",))
     feats = {"kind": c["kind"], "pd": c["pd"], "pm": c["pm"], "y_lt_1000": c["y"] < 1000, "path": path, "fmt": fmt,
              "rtp": bool(c["rtp"])}
     cj = dict(c, string=s)
